@@ -454,10 +454,18 @@ def find_origin_by_convolution(IM, axes=(0, 1), projections=False, **kwargs):
     for a in axes:
         # projection along the other axis
         proj = IM.sum(axis=1 - a)
+        # (normalized, so that very small or large intensities do not
+        # underflow or overflow in the products)
+        scale = np.abs(proj).max()
+        if scale == 0 or not np.isfinite(scale):
+            scale = 1.0
+        proj = proj / scale
         # autoconvolute projections
         conv[a] = np.convolve(proj, proj, mode='full')
         # take the first max, should there be several equal maxima
         origin[a] = np.argmax(conv[a]) / 2
+        if projections:
+            conv[a] *= scale**2  # (in the units of the image)
     origin = tuple(origin)
 
     if projections:
